@@ -495,9 +495,18 @@ def _norm1(e, ctx):
                 a2 = []
             kw2 = tuple((k_, v_) for k_, v_ in kwargs
                         if not (k_ in ('init', 'reset') and v_ in (('const', 0), ('const', False))) and
-                        not (k_ == 'reset_less' and v_ == ('const', False)))
+                        not (k_ == 'reset_less' and v_ == ('const', False)) and
+                        not (k_ == 'name' and fn == ('name', 'Signal')))    # the debug name of a signal is not behaviour
             if tuple(a2) != args or kw2 != kwargs:
                 return ('call', fn, tuple(a2), kw2)
+        if fn == ('name', 'int') and len(args) == 1 and not kwargs:
+            a0 = args[0]
+            # int() of integer arithmetic (floor division, products, sums of widths) is that integer
+            if a0[0] in ('lin', 'ceildiv') or (a0[0] == 'nary' and a0[1] == '*') or \
+                    (a0[0] == 'bin' and a0[1] in ('//', '%', '<<', '>>', '**', '-', '+', '*')) or \
+                    (a0[0] == 'attr' and a0[2] in ('width',)) or \
+                    (a0[0] == 'call' and a0[1] in (('name', 'len'), ('name', 'ceil_log2'), ('name', 'exact_log2'))):
+                return a0
         if fn in (('name', 'max'), ('name', 'min')) and len(args) >= 2 and not kwargs and not any(a[0] == 'star' for a in args):
             srt = tuple(sorted(args, key=_sort_key))
             if srt != args:
